@@ -96,6 +96,13 @@ func genC05BigCuts(g *Gen) any {
 	return &C05Scenario{Msgs: [][]int{{c05BigLen}}, PatKey: 0xC5B, Cuts: []int{g.Idx + 1}, ReadBuf: 20480}
 }
 
+// every message length 6..16640 (6: the pattern header), as the first message of
+// a fresh connection and again after another message
+func genC05Lengths(g *Gen) any {
+	l := 6 + g.Idx
+	return &C05Scenario{Msgs: [][]int{{l, 7, l}}, PatKey: 0xC51 + uint64(l), ReadBuf: 20480}
+}
+
 func genC05Random(g *Gen) any {
 	sc := &C05Scenario{PatKey: g.Rng.Uint64()}
 	nw := g.Int(1, 6)
@@ -320,5 +327,6 @@ func init() {
 	}, Gen: genC05BigCuts, New: newSc, Run: runC05, Policy: pol})
 	register(&Family{Name: "c05-random", Count: func(tier string) int { return map[string]int{"quick": 3000, "thorough": 100000}[tier] },
 		Gen: genC05Random, New: newSc, Run: runC05, Policy: pol})
-	plans["C05"] = []string{"c05-cuts", "c05-bigcuts", "c05-random"}
+	register(&Family{Name: "c05-lengths", Enumerated: true, Count: func(string) int { return c05BigLen - 6 + 1 }, Gen: genC05Lengths, New: newSc, Run: runC05, Policy: pol})
+	plans["C05"] = []string{"c05-cuts", "c05-bigcuts", "c05-random", "c05-lengths"}
 }
